@@ -703,34 +703,119 @@ def judge(src, r, stats=None):
 
 
 def minimise(src, fingerprint, entry_kw, budget_s=20.0):
-  """Line-deletion minimisation keeping the same fingerprint; time-bounded; one dedicated worker."""
+  """Minimisation keeping the same fingerprint; time-bounded; one dedicated worker.
+
+  Passes, repeated until nothing changes or the time is up: (1) delete a statement together with its indented block,
+  largest blocks first; (2) unwrap a compound statement (drop the header, dedent its block); (3) delete single
+  lines; (4) delete single tokens / replace a bracketed or call expression by a name.  Candidates that CPython
+  cannot compile are skipped without running pytype unless the violation itself is about a compile error."""
   deadline = time.time() + budget_s
   env = common.impl_env()
   w = c15_pool._Worker(99, env, "min")  # pylint: disable=protected-access
+  about_compile = fingerprint.startswith(("compile-error", "spurious"))
+  tried = set()
+
   def fails(text):
+    if not text.strip() or text in tried:
+      return False
+    tried.add(text)
+    if not about_compile and cpython_verdict(seen_text(text))[0] != "compiles":
+      return False
     job = dict(entry_kw, id="m", src=text)
     r = w.run(job, 15)
     _, viol = judge(text, r)
     return any(fp == fingerprint for fp, _ in viol)
+
+  def indent(ln):
+    return len(ln) - len(ln.lstrip(" \t"))
+
+  def block_end(lines, i):
+    """Index after the block that line i heads (i itself if it heads none); blank lines stay with the block."""
+    k = i + 1
+    while k < len(lines) and (not lines[k].strip() or indent(lines[k]) > indent(lines[i])):
+      k += 1
+    return k
+
   try:
     lines = src.split("\n")
-    n = 2
-    while len(lines) > 1 and time.time() < deadline:
-      chunk = max(1, len(lines) // n)
-      removed = False
-      for i in range(0, len(lines), chunk):
+    changed = True
+    while changed and time.time() < deadline:
+      changed = False
+      # (1) statements with their blocks, big ones first
+      order = sorted(range(len(lines)), key=lambda i: -(block_end(lines, i) - i))
+      i_done = set()
+      for i in order:
         if time.time() > deadline:
           break
-        cand = lines[:i] + lines[i + chunk:]
+        if i >= len(lines) or i in i_done or not lines[i].strip():
+          continue
+        k = block_end(lines, i)
+        cand = lines[:i] + lines[k:]
         if cand and fails("\n".join(cand)):
           lines = cand
-          removed = True
-          n = max(n - 1, 2)
+          changed = True
           break
-      if not removed:
-        if chunk == 1:
+      if changed:
+        continue
+      # (2) unwrap compound statements
+      for i in range(len(lines)):
+        if time.time() > deadline:
           break
-        n = min(n * 2, len(lines))
+        k = block_end(lines, i)
+        if k - i < 2 or not lines[i].rstrip().endswith(":"):
+          continue
+        body = [ln for ln in lines[i + 1:k]]
+        d = min((indent(ln) for ln in body if ln.strip()), default=0) - indent(lines[i])
+        cand = lines[:i] + [ln[d:] if ln.strip() else ln for ln in body] + lines[k:]
+        if fails("\n".join(cand)):
+          lines = cand
+          changed = True
+          break
+      if changed:
+        continue
+      # (3) single lines
+      for i in range(len(lines) - 1, -1, -1):
+        if time.time() > deadline:
+          break
+        cand = lines[:i] + lines[i + 1:]
+        if cand and fails("\n".join(cand)):
+          lines = cand
+          changed = True
+      if changed:
+        continue
+      # (4) tokens
+      text = "\n".join(lines)
+      try:
+        toks, tail = c15_gen.tokens_of(text)
+      except Exception:  # pylint: disable=broad-except
+        break
+      join = lambda ts: "".join(a + b for a, b in ts) + tail
+      i = len(toks) - 1
+      while i >= 0 and time.time() < deadline:
+        if toks[i][1].strip():
+          cands = [toks[:i] + toks[i + 1:]]
+          if toks[i][1] in ")]}":
+            # replace the whole bracketed expression (and a callee name in front of it) by a plain name
+            depth, k = 0, i
+            while k >= 0:
+              if toks[k][1] in ")]}":
+                depth += 1
+              elif toks[k][1] in "([{":
+                depth -= 1
+                if depth == 0:
+                  break
+              k -= 1
+            if k >= 0:
+              cands.insert(0, toks[:k] + [[toks[k][0], "x"]] + toks[i + 1:])
+              cands.insert(1, toks[:k] + toks[i + 1:])
+          for c in cands:
+            t2 = join(c)
+            if fails(t2):
+              toks = c
+              changed = True
+              break
+        i = min(i - 1, len(toks) - 1)
+      lines = join(toks).split("\n")
     return "\n".join(lines)
   finally:
     w.kill()
